@@ -46,6 +46,9 @@ const LIMIT: u64 = 15;
 #[derive(Clone, Debug)]
 struct Case {
     cfg: Cfg,
+    /// the history does not start in an empty directory: a rotated file with this number (and
+    /// one record of an earlier era) exists already
+    seed_index: Option<u32>,
 }
 
 fn grid() -> Vec<Case> {
@@ -54,6 +57,7 @@ fn grid() -> Vec<Case> {
         for clean in [CleanK::Never, CleanK::Log(2), CleanK::Gz(2), CleanK::LogGz(1, 1)] {
             g.push(Case {
                 cfg: Cfg::rot(CritK::Size(LIMIT), naming, clean),
+                seed_index: None,
             });
         }
     }
@@ -67,7 +71,7 @@ fn grid() -> Vec<Case> {
                 suffix: Some("log".into()),
                 use_timestamp: false,
             };
-            g.push(Case { cfg });
+            g.push(Case { cfg, seed_index: None });
         }
     }
     // discriminant only, no suffix
@@ -79,9 +83,21 @@ fn grid() -> Vec<Case> {
             suffix: None,
             use_timestamp: false,
         };
-        g.push(Case { cfg });
+        g.push(Case { cfg, seed_index: None });
     }
-    g.push(Case { cfg: Cfg::norot() });
+    g.push(Case {
+        cfg: Cfg::norot(),
+        seed_index: None,
+    });
+    // non-initial state: the numbering is about to grow beyond five digits
+    for naming in [NamingK::Numbers, NamingK::NumbersDirect] {
+        for clean in [CleanK::Never, CleanK::Gz(3)] {
+            g.push(Case {
+                cfg: Cfg::rot(CritK::Size(LIMIT), naming, clean),
+                seed_index: Some(99_998),
+            });
+        }
+    }
     g
 }
 
@@ -185,6 +201,16 @@ fn run_history(c: &Case, word: &[(bool, i64, usize)]) -> Result<Vec<Vec<(String,
     let mut h = Hist::new(&env, c.cfg.clone());
     let mut prev: Snap = Snap::new();
     let mut prev_names: Vec<String> = Vec::new();
+    if let Some(idx) = c.seed_index {
+        let name = format!("app_r{idx:05}.log");
+        let line = b"seed-line\n".to_vec();
+        std::fs::write(env.dir.join(&name), &line).ok();
+        env.observe();
+        env.clock.advance_secs(1);
+        h.accepted.push(line.clone());
+        prev.insert(name.clone(), line);
+        prev_names.push(name);
+    }
     let mut states = Vec::new();
     // non-rotating file: the lines the file must hold
     let mut norot_from: usize = 0;
@@ -298,7 +324,9 @@ fn cause(c: &Case, word: &[(bool, i64, usize)], run: usize) -> String {
         Some((_, _, CleanK::Gz(_))) => "gz",
         Some((_, _, CleanK::LogGz(..))) => "log+gz",
     };
-    let shape = if c.cfg.parts.basename.is_none() && c.cfg.parts.discriminant.is_none() {
+    let shape = if c.seed_index.is_some() {
+        "/numbers-beyond-five-digits"
+    } else if c.cfg.parts.basename.is_none() && c.cfg.parts.discriminant.is_none() {
         "/infix-only-name"
     } else if c.cfg.parts.suffix.is_none() {
         "/no-suffix"
